@@ -188,6 +188,18 @@ def step (cfg : Cfg) (s : State) (a : Int × Int × Int) : State × TimeStep Obs
 /-- `Generator.__call__` after the scramble actions have been drawn -/
 def genState (n : Nat) (flats : List Int) : State := { cube := scramble n flats, stepCount := 0 }
 
+/-- `RubiksCube.reset` after the scramble actions have been drawn: the generated state and
+`restart(observation=_state_to_observation(state))` -/
+def reset (cfg : Cfg) (flats : List Int) : State × TimeStep Obs :=
+  let s := genState cfg.n flats
+  (s, restart (observe s))
+
+/-- an episode without auto-reset: `step` iterated over the action list; every (successor state, timestep) is listed and,
+like the implementation, stepping simply continues after LAST -/
+def run (cfg : Cfg) : State → List (Int × Int × Int) → List (State × TimeStep Obs)
+  | _, [] => []
+  | s, a :: as => step cfg s a :: run cfg (step cfg s a).1 as
+
 /-! ## L2: the physical cube -/
 
 /-- a sticker position of the array: face (0 up, 1 front, 2 right, 3 back, 4 left, 5 down), row, column -/
